@@ -7,6 +7,11 @@ logged per chunking and validated against the byte-exact model (SerialFramingTra
 as last reported" is followed along the whole message sequence (recorded after every decoded message): single switch
 events interleaved with full-state reports (OPP read-input frames, FAST SA: reports of a Neuron and of a Nano NET
 processor), repeated identical reports included.
+OPP wing layouts: the decoder's tables (which card sends input reports, which matrix reports, which bits are switches) are
+built from the wings every Gen2 card reports at start-up.  OPP_CHAINS lists chains of cards with different layouts (matrix
+plus only non-input wings, inputs only, solenoid + input, neopixel, a card without any input, one to four cards); each is
+booted as its own machine (the emulated chain answers GET_GEN2_CFG with the layout), and the layout is part of the link
+configuration of the model (cfg.cards): SerialFraming derives from the wings what a valid report is.
 Flow control: schedules (TLC simulation of FastFlow + hand-written) drive the real FastNetNeuronCommunicator with a
 recording port and a hand-fed reader in virtual time (FastFlowTrace).
 """
@@ -182,12 +187,13 @@ def _make_mocks():
 def _boot(proto):
     """Boot the real platform of `proto` against its emulated board; returns the harness (with .mock)."""
     OppChainMock, FastNetMock, PkoneMock = _make_mocks()
-    if proto == 'opp':
+    if proto in OPP_CHAINS:
         from unittest.mock import MagicMock
         from mpf.platforms.opp import opp
         opp.serial_imported = True
         opp.serial = MagicMock()
-        mock, port, mdir = OppChainMock({0x20: b'\x02\x02\x02\x02', 0x21: b'\x02\x02\x04\x05'}), 'com1', 'serial_opp'
+        ch = OPP_CHAINS[proto]      # the emulated cards answer GET_GEN2_CFG with their wing layout
+        mock, port, mdir = OppChainMock({a: bytes(w) for a, w in ch['cards']}), 'com1', ch.get('mdir') or _write_opp_machine(proto)
     elif proto == 'fast':
         mock, port, mdir = FastNetMock(), 'com3', 'serial_fast'
     elif proto == 'fastnano':
@@ -218,7 +224,60 @@ def _boot(proto):
 OPP_SW = [('s0_0', 0x20, 8, 0), ('s0_1', 0x20, 8, 1), ('s0_8', 0x20, 8, 8), ('s0_21', 0x20, 8, 21), ('s0_31', 0x20, 8, 31),
           ('s1_0', 0x21, 8, 0), ('s1_5', 0x21, 8, 5), ('s1_13', 0x21, 8, 13),
           ('m1_32', 0x21, 0x19, 0), ('m1_37', 0x21, 0x19, 5), ('m1_61', 0x21, 0x19, 29), ('m1_95', 0x21, 0x19, 63)]
-OPP_KEYS = [0x20 * 256 + 8, 0x21 * 256 + 8, 0x21 * 256 + 0x19]
+# OPP Gen2 wing codes (mpf/platforms/opp/opp_rs232_intf.py WING_*)
+SOL, INP, INC, MXO, MXI, NEO, HSI, NEOSOL, MXOL, LMC, LMR, SOL8, NONE = 1, 2, 3, 4, 5, 6, 7, 8, 10, 11, 12, 13, 0
+I8, M25 = 8, 0x19           # report kinds: read inputs / read matrix
+
+
+def _names(sws):
+    return [('c%d_%s%d' % (a - 0x20, 'i' if c == I8 else 'm', i if c == I8 else 32 + i), a, c, i) for a, c, i in sws]
+
+
+# chains of cards with different wing layouts: cards = (address, wings 0..3); sws = the configured switches as (name, card
+# address, report kind, input / matrix switch index).  MPF numbers them <card>-<input> and <card>-<32 + matrix switch>.
+OPP_CHAINS = {
+    # inputs only; inputs + matrix (machines/serial_opp)
+    'opp': dict(cards=[(0x20, [INP, INP, INP, INP]), (0x21, [INP, INP, MXO, MXI])], sws=OPP_SW, mdir='serial_opp'),
+    # matrix + only incandescent wings; solenoid + matrix (the layout of the repository's tests); neopixel, input,
+    # solenoid and hi-side incandescent wing without a matrix
+    'oppb': dict(cards=[(0x20, [INC, INC, MXO, MXI]), (0x21, [SOL, SOL, MXO, MXI]), (0x22, [NEO, INP, SOL, HSI])],
+                 sws=_names([(0x20, M25, 0), (0x20, M25, 16), (0x20, M25, 37), (0x20, M25, 63),
+                             (0x21, I8, 0), (0x21, I8, 3), (0x21, I8, 8), (0x21, I8, 11),
+                             (0x21, M25, 0), (0x21, M25, 29), (0x21, M25, 63),
+                             (0x22, I8, 0), (0x22, I8, 5), (0x22, I8, 7), (0x22, I8, 8), (0x22, I8, 15), (0x22, I8, 16), (0x22, I8, 19)])),
+    # matrix on the low wings + lamp matrix; 8-solenoid + hi-side incandescent + matrix; neopixel/solenoid + incandescent
+    # + input + an unpopulated wing; a card without any input
+    'oppc': dict(cards=[(0x20, [MXOL, MXI, LMC, LMR]), (0x21, [SOL8, HSI, MXO, MXI]), (0x22, [NEOSOL, INC, INP, NONE]),
+                        (0x23, [INC, INC, INC, INC])],
+                 sws=_names([(0x20, M25, 1), (0x20, M25, 8), (0x20, M25, 62), (0x21, M25, 0), (0x21, M25, 35), (0x21, M25, 63),
+                             (0x22, I8, 1), (0x22, I8, 3), (0x22, I8, 16), (0x22, I8, 23)])),
+    # a single card, matrix + non-input wings: no card with direct inputs on the chain at all
+    'oppd': dict(cards=[(0x20, [HSI, INC, MXO, MXI])], sws=_names([(0x20, M25, 0), (0x20, M25, 7), (0x20, M25, 32), (0x20, M25, 63)])),
+}
+
+
+def _write_opp_machine(name):
+    """Machine config of an OPP chain of OPP_CHAINS (in the run's private temp dir); returns the machine directory."""
+    import tempfile
+    d = os.path.join(tempfile.gettempdir(), 'c14_%s_%d' % (name, os.getpid()))
+    os.makedirs(os.path.join(d, 'config'), exist_ok=True)
+    ch = OPP_CHAINS[name]
+    txt = '#config_version=6\n# C14: OPP chain %s: %s\nhardware:\n    platform: opp\n\nopp:\n    ports: com1\n    baud: 115200\n' \
+          '    debug: false\n\nswitches:\n' % (name, ch['cards'])
+    for n, a, c, i in ch['sws']:
+        txt += '    %s:\n        number: %d-%d\n' % (n, a - 0x20, i if c == I8 else 32 + i)
+    with open(os.path.join(d, 'config', 'config.yaml'), 'w') as f:
+        f.write(txt)
+    return d
+
+
+def opp_rep(a, c, closed=()):
+    """CRC-correct report of kind c of card a: the inputs / matrix switches `closed` closed (bit cleared), the others open."""
+    n = 4 if c == I8 else 8
+    v = (1 << (8 * n)) - 1
+    for i in closed:
+        v &= ~(1 << i)
+    return opp_crc([a, c] + list(v.to_bytes(n, 'big')))
 FAST_SW = [('s_01', 1), ('s_05', 5), ('s_0a', 10), ('s_11', 17), ('s_1f', 31)]     # s_05 is normally closed
 FAST_INV = [5]
 PK_SW = [('s_0_01', 1), ('s_0_12', 12), ('s_0_30', 30)]
@@ -239,28 +298,46 @@ def fast_sa(on=(), raw_nc=True, n=14, fmt='neuron'):
 
 def links():
     """Instantiations of the byte classes: valid frames (built with the real CRC), fillers and noise bytes."""
-    opp_sws = [{'a': a, 'c': c, 'i': i} for (_, a, c, i) in OPP_SW]
+    chain_sws = lambda ch: [{'a': a, 'c': c, 'i': i} for (_, a, c, i) in OPP_CHAINS[ch]['sws']]
+    opp_sws = chain_sws('opp')
     I, M = 8, 0x19
     out = [
         # plain payloads toggling configured switches; noise: plain, command-like, address-like, EOM
-        dict(id='opp1', proto='opp', fill=[[255]], noise=[1, 8, 33, 255], keys=OPP_KEYS, sws=opp_sws, P=99, G=1,
+        dict(id='opp1', proto='opp', fill=[[255]], noise=[1, 8, 33, 255], keys=[], sws=opp_sws, P=99, G=1,
              frames=[opp_crc([0x20, I, 0xff, 0xff, 0xff, 0xfe]), opp_crc([0x20, I, 0xff, 0xff, 0xff, 0xff]),
                      opp_crc([0x20, I, 0x7f, 0xdf, 0xfe, 0xfd]),
                      opp_crc([0x21, I, 0xff, 0xff, 0xdf, 0xfe]), opp_crc([0x21, I, 0xff, 0xff, 0xff, 0xdf]),
                      opp_crc([0x21, M, 0x7f, 0xff, 0xff, 0xff, 0xff, 0xff, 0xff, 0xfe]),
                      opp_crc([0x21, M, 0xff, 0xff, 0xff, 0xff, 0xdf, 0xff, 0xff, 0xdf])]),
         # payload bytes that look like address / command bytes; noise: address-like, matrix command, high bit
-        dict(id='opp2', proto='opp', fill=[[255]], noise=[0x20, 0x19, 0x3f, 0x80], keys=OPP_KEYS, sws=opp_sws, P=99, G=99,
+        dict(id='opp2', proto='opp', fill=[[255]], noise=[0x20, 0x19, 0x3f, 0x80], keys=[], sws=opp_sws, P=99, G=99,
              frames=[opp_crc([0x20, I, 0xff, 0x21, 0x08, 0xfe]), opp_crc([0x20, I, 0x20, 0x19, 0xff, 0xff]),
                      opp_crc([0x21, I, 0x20, 0x08, 0xdf, 0xde]),
                      opp_crc([0x21, M, 0x21, 0x08, 0xff, 0xff, 0x3f, 0xff, 0x19, 0xdf]),
                      opp_crc([0x21, M, 0xff, 0x20, 0x19, 0xff, 0xff, 0xff, 0xff, 0xfe])]),
         # a board that is not in the inventory (valid CRC) between reports of board 0x21; noise incl. inventory cmd
-        dict(id='opp3', proto='opp', fill=[[255]], noise=[0x2f, 0x00, 0xf0, 0xfe], keys=OPP_KEYS, sws=opp_sws, P=99, G=1,
+        dict(id='opp3', proto='opp', fill=[[255]], noise=[0x2f, 0x00, 0xf0, 0xfe], keys=[], sws=opp_sws, P=99, G=1,
              frames=[opp_crc([0x2f, I, 0x00, 0x00, 0x00, 0x00]), opp_crc([0x2f, M, 0, 0, 0, 0, 0, 0, 0, 0]),
                      opp_crc([0x21, I, 0xff, 0xff, 0xdf, 0xde]), opp_crc([0x21, I, 0xff, 0xff, 0xff, 0xff]),
                      opp_crc([0x21, M, 0xff, 0xff, 0xff, 0xdf, 0xff, 0xff, 0xff, 0xde]),
                      opp_crc([0x20, I, 0xff, 0xdf, 0xfe, 0xfc])]),
+        # ---- chains of cards with other wing layouts (OPP_CHAINS): reports of every card and kind; inputs closed which the
+        # wing does not have (bits 4-7 of a solenoid wing, bit 4 of a neopixel wing, bit 0 of a neopixel/solenoid wing, any
+        # bit of an incandescent / unpopulated wing); reports of a kind the card does not have (by its wings), of a card
+        # without any input, of a card that is not on the chain
+        dict(id='oppw1', proto='opp', mach='oppb', fill=[[255]], noise=[1, 8, 0x22, 255], keys=[], sws=chain_sws('oppb'), P=99, G=1,
+             frames=[opp_rep(0x20, M, [0, 63]), opp_rep(0x20, M, [16, 37, 40]), opp_rep(0x20, M),
+                     opp_rep(0x21, I, [0, 11]), opp_rep(0x21, I, [3, 4, 5, 8, 20]), opp_rep(0x21, M, [0, 29]), opp_rep(0x21, M, [63]),
+                     opp_rep(0x22, I, [0, 4, 7, 16]), opp_rep(0x22, I, [5, 8, 15, 19, 20, 24]), opp_rep(0x22, I),
+                     opp_rep(0x20, I, [0, 1, 16]), opp_rep(0x22, M, [0, 5, 63])]),
+        dict(id='oppw2', proto='opp', mach='oppc', fill=[[255]], noise=[0x23, 0x19, 2, 0xf0], keys=[], sws=chain_sws('oppc'), P=99, G=1,
+             frames=[opp_rep(0x20, M, [1, 62]), opp_rep(0x20, M, [8]), opp_rep(0x21, M, [0, 63]), opp_rep(0x21, M, [35, 36]),
+                     opp_rep(0x22, I, [1, 16]), opp_rep(0x22, I, [0, 3, 8, 23, 24]), opp_rep(0x22, I),
+                     opp_rep(0x23, I, [0, 1]), opp_rep(0x23, M, [0, 1]), opp_rep(0x21, I, [0, 8]), opp_rep(0x22, M, [1, 3]),
+                     opp_rep(0x24, M, [0])]),
+        dict(id='oppw3', proto='opp', mach='oppd', fill=[[255]], noise=[8, 0x19, 0x21, 0], keys=[], sws=chain_sws('oppd'), P=99, G=1,
+             frames=[opp_rep(0x20, M, [0, 63]), opp_rep(0x20, M, [7, 32]), opp_rep(0x20, M), opp_rep(0x20, M, [0, 7, 32, 63]),
+                     opp_rep(0x20, I, [0, 7]), opp_rep(0x21, M, [0, 7]), opp_rep(0x21, I, [0])]),
         dict(id='fast1', proto='fast', fill=[[13]], noise=_asc('Z1') + [13, 255], keys=[n for _, n in FAST_SW],
              sws=[n for _, n in FAST_SW], P=1, G=99,
              frames=[_asc(s + '\r') for s in ('-L:01', '/L:01', '-L:0A', '/L:0A', '-L:1F', '-L:11', '/L:1F')]),
@@ -296,6 +373,8 @@ def links():
         c.setdefault('maxwire', 44)
         c.setdefault('swc', ord('L') if c['proto'] == 'fast' else 0)
         c.setdefault('mach', c['proto'])        # which emulated machine of this driver executes the streams
+        # OPP: the wing layout of the cards on the chain (what the emulated cards of that machine answer at start-up)
+        c['cards'] = [{'a': a, 'w': list(w)} for a, w in OPP_CHAINS[c['mach']]['cards']] if c['proto'] == 'opp' else []
     return out
 
 
@@ -305,13 +384,13 @@ def link_tla(c, frames=None, noise=None):
     nz = [c['noise'][i] for i in noise] if noise else c['noise']
     d = dict(id=c['id'], proto=c['proto'], frames=TlaSet(fr), fill=TlaSet(c['fill']), noise=TlaSet(nz),
              keys=c['keys'], sws=c['sws'], infl=3 if c['proto'] == 'pkone' else 0, P=c['P'], G=c['G'],
-             saf=c['saf'], san=c['san'], inv=c['inv'], swc=c['swc'])
+             saf=c['saf'], san=c['san'], inv=c['inv'], swc=c['swc'], cards=c['cards'])
     return to_tla(d)
 
 
 def link_json(c):
     return dict(id=c['id'], proto=c['proto'], keys=c['keys'], sws=c['sws'], infl=3 if c['proto'] == 'pkone' else 0, P=c['P'], G=c['G'],
-                saf=c['saf'], san=c['san'], inv=c['inv'], swc=c['swc'])
+                saf=c['saf'], san=c['san'], inv=c['inv'], swc=c['swc'], cards=c['cards'])
 
 
 def framing_mc_module(cfgs):
@@ -334,7 +413,8 @@ CONSTANTS
 %sCHECK_DEADLOCK FALSE
 """
 FRAMING_PROPS = ('INVARIANT FramesValid\nINVARIANT ChunkInvariance\nINVARIANT BadFrameInert\nINVARIANT NoInventedState\n'
-                 'INVARIANT Resync\nINVARIANT LastReportWins\nINVARIANT SequenceFollowsReports\n')
+                 'INVARIANT Resync\nINVARIANT LastReportWins\nINVARIANT SequenceFollowsReports\nINVARIANT LayoutValid\n'
+                 'INVARIANT WingReportsApplied\n')
 
 
 # ===================================================================================== real decoders
@@ -373,10 +453,13 @@ def _link_machine(proto):
     rec = {'on': False, 'calls': [], 'hist': [], 'sw': []}
     w = {'h': h, 'rec': rec, 'dirty': False}
     h.mock.auto = False
-    if proto == 'opp':
+    if proto in OPP_CHAINS:
         w['comm'] = p.opp_connection['com1']
         _install_recorder(type(p), 'process_received_message', lambda a: list(bytes(a[1])))
-        w['names'] = [n for n, _, _, _ in OPP_SW]
+        w['names'] = [n for n, _, _, _ in OPP_CHAINS[proto]['sws']]
+        # every card / kind of report with a configured switch reports "all open" (as the cards did at boot)
+        w['reset'] = bytes(sum((opp_rep(a, c) for a, c in sorted({(a, c) for _, a, c, _ in OPP_CHAINS[proto]['sws']})), []) +
+                           [255, 255, 255])
     elif proto in ('fast', 'fastnano'):
         w['comm'] = p.serial_connections['net']
         from mpf.platforms.fast.communicators.base import FastSerialCommunicator
@@ -400,11 +483,10 @@ def _reset_decoder(proto, w):
     """Fresh decoder state and all configured switches inactive (through the decoder's own entry point)."""
     comm = w['comm']
     w['rec']['on'] = False
-    if proto == 'opp':
+    if proto in OPP_CHAINS:
         comm.part_msg = b''
         comm._lost_synch = False
-        comm._parse_msg(bytes(opp_crc([0x20, 8, 255, 255, 255, 255]) + opp_crc([0x21, 8, 255, 255, 255, 255]) +
-                              opp_crc([0x21, 0x19] + [255] * 8) + [255, 255, 255]))
+        comm._parse_msg(w['reset'])
         comm.part_msg = b''
         comm._lost_synch = False
     elif proto in ('fast', 'fastnano'):
@@ -591,6 +673,28 @@ def handmade(cfgs):
         ('opp2', f2[2], []), ('opp2', f2[4], []),
         ('opp3', f3[0] + f3[2] + f3[4] + E, []), ('opp3', [0xf0, 0x2f] + f3[4] + f3[5] + E, []),
         ('opp3', f3[1] + f3[4], []),
+    ]
+    # wing layouts: poll responses of the whole chain (every card and kind of report), a second poll response with other
+    # states, reports of a kind the card's wings do not provide / of a card without inputs / of no card between valid ones,
+    # closed "inputs" which the wing does not have, a bad CRC on the card that only has a matrix
+    w1, w2, w3 = c['oppw1']['frames'], c['oppw2']['frames'], c['oppw3']['frames']
+    poll1 = w1[0] + w1[3] + w1[5] + w1[7] + E
+    out += [
+        ('oppw1', w1[0], []), ('oppw1', w1[1] + E, []), ('oppw1', w1[7], []),
+        ('oppw1', poll1, [1 << 10, (1 << 10) | (1 << 17), (1 << 10) | (1 << 17) | (1 << 28)]),
+        ('oppw1', poll1 + w1[1] + w1[4] + w1[6] + w1[8] + E, []),
+        ('oppw1', w1[0] + w1[2] + E + w1[1] + E, []),
+        ('oppw1', w1[10] + w1[0] + E, []), ('oppw1', w1[0] + w1[10] + E, []),
+        ('oppw1', w1[11] + w1[7] + w1[9] + E, []), ('oppw1', w1[8] + w1[11] + E, []),
+        ('oppw1', w1[0][:10] + [w1[0][10] ^ 0x10] + w1[1] + E, []),
+        ('oppw1', w1[4] + w1[8] + E, []),
+        ('oppw2', w2[0] + w2[2] + w2[4] + E, []), ('oppw2', w2[4], []), ('oppw2', w2[5], []),
+        ('oppw2', w2[0] + w2[2] + w2[4] + E + w2[1] + w2[3] + w2[5] + E, []),
+        ('oppw2', w2[7] + w2[8] + w2[0] + E, []), ('oppw2', w2[9] + w2[10] + w2[3] + w2[6] + E, []),
+        ('oppw2', w2[11] + w2[2] + E, []), ('oppw2', [0x01] + w2[0] + w2[3], []),
+        ('oppw3', w3[0] + E + w3[1] + E + w3[2] + E, []), ('oppw3', w3[4] + w3[0] + E, []),
+        ('oppw3', w3[5] + w3[6] + w3[3] + E, []), ('oppw3', w3[3] + w3[3] + w3[2], []),
+        ('oppw3', w3[1][:5] + w3[0] + E + w3[1], []),
     ]
     A = _asc
     out += [
@@ -821,15 +925,18 @@ def run_framing(ctx):
     # ---- exhaustive: every stream within the budget, every chunking
     if ctx.quick:
         mc = [link_tla(by['opp1'], [0, 5], [1, 2]), link_tla(by['fast1'], [0, 2], [0, 2, 3]), link_tla(by['pkone1'], [0, 2], [0, 2, 3])]
-        mcseq = [link_tla(by['fast3s'], [0, 1, 3, 4], [0])]
+        mcseq = [link_tla(by['fast3s'], [0, 1, 3, 4], [0]), link_tla(by['oppw1'], [0, 7, 10, 11], [0])]
         bounds = dict(MaxFrames=2, MaxFaults=1, MaxInsert=1, MaxFill=1, MaxChunk=11)
     else:
         mc = [link_tla(by['opp1'], [0, 3, 5], [0, 1, 2]), link_tla(by['opp2'], [0, 2, 3], [0, 1, 2]),
-              link_tla(by['opp3'], [0, 2, 4], [0, 1, 2]), link_tla(by['fast1'], [0, 1, 2, 4]), link_tla(by['fast2'], [0, 2, 3]),
+              link_tla(by['opp3'], [0, 2, 4], [0, 1, 2]), link_tla(by['oppw1'], [0, 8, 10], [0, 1]),
+              link_tla(by['oppw2'], [0, 4], [0, 2]), link_tla(by['fast1'], [0, 1, 2, 4]), link_tla(by['fast2'], [0, 2, 3]),
               link_tla(by['fast3s'], [1, 3], [0, 2]),
               link_tla(by['pkone1'], [0, 1, 2]), link_tla(by['pkone2'], [0, 1, 2])]
         bounds = dict(MaxFrames=2, MaxFaults=1, MaxInsert=1, MaxFill=2, MaxChunk=11)
-        mcseq = [link_tla(by['fast3s'], [0, 1, 3, 4, 5], [0]), link_tla(by['fast4'], [1, 3, 5], [0])]
+        mcseq = [link_tla(by['fast3s'], [0, 1, 3, 4, 5], [0]), link_tla(by['fast4'], [1, 3, 5], [0]),
+                 link_tla(by['oppw1'], [0, 3, 7, 10, 11], [0]), link_tla(by['oppw2'], [0, 4, 8, 9], [0]),
+                 link_tla(by['oppw3'], [0, 1, 4], [0])]
     with open(wd + '/SerialFramingMC.tla', 'w') as f:
         f.write(framing_mc_module(mc))
     B = lambda b, spec, conf, dev, props: FRAMING_CFG % (spec, conf, b['MaxFrames'], b['MaxFaults'], b['MaxInsert'],
@@ -847,7 +954,7 @@ def run_framing(ctx):
     r = tlc.expect_ok(tlc.check(wd, 'SerialFramingSeq', 'MCseq.cfg', timeout=3000), 'SerialFraming design check (report sequences)')
     ctx.add_tlc('SerialFramingSeq', r, dict(sb, links=len(mcseq)))
     ctx.coverage['monitors'] += ['ChunkInvariance', 'BadFrameInert', 'NoInventedState', 'Resync', 'LastReportWins', 'FramesValid',
-                                 'SequenceFollowsReports']
+                                 'SequenceFollowsReports', 'LayoutValid', 'WingReportsApplied']
     # the monitors do detect the code-as-is deviations (FAST/PKONE robustness): expected counterexample
     with open(wd + '/MCdev.cfg', 'w') as f:
         f.write(B(dict(bounds, MaxFrames=1), 'Spec', 'MCConfigs', to_tla(TlaSet(FRAMING_DEVS)), 'INVARIANT BadFrameInert\n'))
@@ -861,7 +968,7 @@ def run_framing(ctx):
     gen = dict(MaxFrames=3, MaxFaults=3, MaxInsert=2, MaxFill=2, MaxChunk=11)
     with open(wd + '/Gen.cfg', 'w') as f:
         f.write(B(gen, 'Spec', 'MCConfigs', '{}', ''))
-    behs, _ = tlc.simulate(wd, 'SerialFramingGen', 'Gen.cfg', num=100 if ctx.quick else 600, depth=70, seed=ctx.seed)
+    behs, _ = tlc.simulate(wd, 'SerialFramingGen', 'Gen.cfg', num=120 if ctx.quick else 800, depth=70, seed=ctx.seed)
     upto = 11 if ctx.quick else 13         # every chunking for streams up to this many bytes ...
     nexh = 10 ** 6 if ctx.quick else 60   # ... (thorough: for the first nexh such streams, 11 bytes beyond)
     nsample = 30 if ctx.quick else 100
@@ -887,7 +994,7 @@ def run_framing(ctx):
         add(by[last['cfg']['id']], wire[:by[last['cfg']['id']]['maxwire']], [mask] if len(wire) <= 24 else [])
     rnd = random.Random(ctx.seed)
     for cfg in cfgs:
-        for _ in range(8 if ctx.quick else 60):
+        for _ in range((6 if cfg['id'].startswith('oppw') else 8) if ctx.quick else 60):
             add(cfg, random_wire(cfg, rnd), [])
     k = 0
     for j in jobs:
@@ -941,12 +1048,23 @@ def run_framing(ctx):
                               'stream %s: %s' % (proto.upper(), tr['wire'], tr['ev'][0].get('what')), dict(rp, tb=tr.get('_tb')))
                 continue
             ln = rp['line'] or {}
+            where = 'link %s' % tr['cfg']['id']
+            hist, fin = ln.get('h'), ln.get('s')
+            if proto == 'opp' and tr.get('_id') in by:
+                # name the cards (wing layout) and the switches: which reports were decoded and what was active after each
+                ch = OPP_CHAINS[by[tr['_id']]['mach']]
+                nm = [n for n, _, _, _ in ch['sws']]
+                where += ', chain of cards %s (wing codes), switches card_i<input>/card_m<matrix number>' % ', '.join(
+                    '0x%02x:%s' % (a, wv) for a, wv in ch['cards'])
+                hist = [[n for j, n in enumerate(nm) if x >> j & 1] for x in ln.get('h', [])]
+                fin = [n for j, n in enumerate(nm) if j < len(ln.get('s', [])) and ln['s'][j]]
             ctx.violation('C14:%s-framing:decode-mismatch' % proto,
-                          '%s decoder (link %s): chunking %s of stream %r: the decoded messages %s / the switch states after each '
-                          'of them %s / the final switch states %s differ from the model (decoding of the whole stream, every '
-                          'well-formed report applied in order, the last report wins): %s' % (
-                              proto.upper(), tr['cfg']['id'], (ln.get('m'), ln.get('k')), bytes(tr['wire']),
-                              [bytes(tr['tbl'][i - 1]) for i in ln.get('o', [])], ln.get('h'), ln.get('s'), ln), rp)
+                          '%s decoder (%s): chunking %s of stream %r: the decoded messages %s / the active switches after each '
+                          'of them %s / the active switches at the end %s differ from the model (decoding of the whole stream, every '
+                          'well-formed report of a card that has such inputs applied in order, the last report wins, nothing else '
+                          'changes a switch): %s' % (
+                              proto.upper(), where, (ln.get('m'), ln.get('k')), bytes(tr['wire']),
+                              [bytes(tr['tbl'][i - 1]) for i in ln.get('o', [])], hist, fin, ln), rp)
     return traces
 
 
@@ -1033,7 +1151,12 @@ def run(ctx):
     ctx.assumptions += [
         'decoders are driven at their parsing entry points (_parse_msg / parse_incoming_raw_bytes) with the byte chunks a '
         'StreamReader.read(128) could return; the flow-control harness feeds the real _socket_reader through the port mock',
-        'OPP: chain of boards 0x20 (32 inputs) and 0x21 (16 inputs + switch matrix) emulated at boot; Resync on OPP is claimed '
+        'OPP: chains of one to four emulated Gen2 cards (OPP_CHAINS), each booted as its own machine with the wing layout the '
+        'cards report at start-up: 0x20 32 inputs + 0x21 16 inputs and matrix; matrix with incandescent wings only + solenoid, '
+        'solenoid, matrix + neopixel, input, solenoid, hi-side incandescent; low-wing matrix with lamp matrix + 8-solenoid, '
+        'hi-side incandescent, matrix + neopixel/solenoid, incandescent, input, unpopulated + incandescent only; a single '
+        'card hi-side incandescent, incandescent, matrix.  Wing positions are not restricted to those real cards accept; '
+        'all cards of a chain are Gen2 and answer the inventory; firmware 2.2.0.0.  Resync on OPP is claimed '
         'only for frames after cfg.G end-of-message bytes (back-to-back reports whose CRC byte looks like an address byte can '
         'keep the decoder out of synch: the "unknown command" branch drops two bytes)',
         'FAST/PKONE noise alphabets are chosen so that only switch-event and SA: report headers can be formed (and no white '
